@@ -73,6 +73,10 @@ void AllocVisitLive(AllocVisitFn fn, void *ctx);
 // Yield hook for the scheduler (called before every new/delete when set).
 extern void (*g_alloc_yield)(int kind);
 
+// Stateless cap for multi-threaded engines: requests above it are refused
+// with bad_alloc whatever else is configured (0 = off).
+void AllocSetHardCap(uint64_t bytes);
+
 // Flush the quarantine (perturb mode).
 void AllocFlushQuarantine();
 
